@@ -25,6 +25,9 @@ from .. import core, gen
 LEVEL = "model_checking"
 DATA = os.path.join(core.REPO, "tests", "data")
 PHOS = {"P", "O1P", "O2P", "OP1", "OP2", "OP3", "HOP2", "HOP3"}
+# the deposited spelling of the phosphate oxygens: the repair step and the names files of the force fields treat OP1 / OP2 as
+# O1P / O2P without renaming the atom, so the topology clauses see them under the topology's spelling
+CANON = {"OP1": "O1P", "OP2": "O2P"}
 
 
 # ------------------------------------------------------------------ environments
@@ -188,18 +191,18 @@ def _job(job):
             if e["e"] == "log":
                 last_log = e["msg"]
             elif e["e"] == "new":
-                ev.append({"e": "new", "a": e["a"], "name": e["name"], "stage": e["stage"], "hv": bool(e["hv"]), "res": e["res"]})
+                ev.append({"e": "new", "a": e["a"], "name": CANON.get(e["name"], e["name"]), "stage": e["stage"], "hv": bool(e["hv"]), "res": e["res"]})
                 if e["stage"] in ("SetupMolecule", "") and e["hv"] and e["rc"] != "Residue" and e["rc"] != "LIG":
                     recognised.append(e["a"])
             elif e["e"] == "del":
-                ev.append({"e": "del", "a": e["a"], "name": e["name"], "stage": e["stage"], "hv": False, "res": e["res"]})
+                ev.append({"e": "del", "a": e["a"], "name": CANON.get(e["name"], e["name"]), "stage": e["stage"], "hv": False, "res": e["res"]})
                 if last_log.startswith(f"Extra atom {e['name']} in"):
                     reported.append(e["a"])
                 if e["stage"] == "SetTermini" and e["name"] in PHOS:
                     fivep.append(e["a"])
                 last_log = ""
             elif e["e"] == "rename":
-                ev.append({"e": "rename", "a": e["a"], "name": e["name"], "stage": e["stage"], "hv": False, "res": e["res"]})
+                ev.append({"e": "rename", "a": e["a"], "name": CANON.get(e["name"], e["name"]), "stage": e["stage"], "hv": False, "res": e["res"]})
         ids = tr.ids
         bio = r["bio"]
         # the final model = the atoms of its residues (the flat atom list must agree with it, see below)
@@ -251,7 +254,7 @@ def _job(job):
             "written": written, "reported": reported, "recognised": recognised, "fivep": fivep,
             "inputheavy": input_heavy_count(job["text"], "--drop-water" in job["args"]),
             "residues": [{k: x[k] for k in ("ids", "full", "check", "want", "oneof")} for x in residues]},
-            labels=[x["label"] for x in residues], names={v: (tr.atoms[v].name if v in tr.atoms else "?") for v in ids.values()},
+            labels=[x["label"] for x in residues], names={v: (CANON.get(tr.atoms[v].name, tr.atoms[v].name) if v in tr.atoms else "?") for v in ids.values()},
             unobservable=tr.unobservable)
     shutil.rmtree(wd, ignore_errors=True)
     return res
